@@ -78,6 +78,20 @@ DONE = {
   technique=PBT + ": differential against a naive query executor"),
 }
 
+# sentences appended to the level texts (extensions of session 5)
+EXTRA = {
+ "C03": " The clause 'counted as inserted' is judged through the store actor's counters of entries added by peers: exact for single remote inserts, never above what was valid and applied for a message.",
+ "C07": " About 1.6 % of the cases drive the client API of a real Docs engine (memory or file-backed): imports that hand back handles which stay open, further opens and closes, writes through set_bytes / del, drop, restart from disk; the capability model predicts every write and the listed kinds after every step.",
+ "C10": " A rare family gives one side of a real-vs-real session 255..1100 entries by as many distinct authors (filling the store is under the watchdog too).",
+ "C11": " Lifecycle schedules also deliver neighbour-down notices through the live actor's real inbox dispatch: the slot kept for the peer must not change.",
+ "C12": " Rare cases add a crowd of 31..257 subscribers that must all see the same sequence.",
+ "C15": " Rare policies carry 126..300 filters.",
+ "C16": " Rare cases add 127..300 bystander documents (entries, policies, peers) that must be listed and unchanged at the end.",
+ "C18": " The key each reported head names must survive every open that has nothing to rebuild.",
+}
+for k, v in EXTRA.items():
+    DONE[k]["text"] += v
+
 def main():
     ids = [json.loads(l)['id'] for l in open('/verif/properties.jsonl')]
     hooks_commit = "78e6fa5"; hooks_commit2 = "b21e23e"
